@@ -100,6 +100,12 @@ theorem decRef_prog_matches (r : Nat) : decRef .prog r = NV.Gen.C06.progDec r 0 
   | zero => simp
   | succ n => simp
 
+/-- the byte count the model keeps per array (total_array_size) is the regenerated formula of allocate_array /
+    allocate_empty_array / dealloc_array / free_empty_array -/
+theorem arrBytes_matches (n : Nat) : arrBytes n = NV.Gen.C06.arrBytesOf n := by
+  unfold arrBytes NV.Gen.C06.arrBytesOf NV.Gen.C06.sizeofArrayT NV.Gen.C06.sizeofSvalue
+  omega
+
 /-- the hypothesis of the task (`holders ≤ 2^W − 1` for every value) implies `Fits` -/
 theorem Fits_of_le (s : St) (h : ∀ c, H s c ≤ 2 ^ W - 1) : Fits s := by
   intro c
